@@ -114,6 +114,7 @@ class Ctx:
         self.trace = []
         self.pc = []
         self.pc_raw = []
+        self.definitional = set()
         self.solver = z3.Solver()
         self.solver.set("timeout", explorer.feas_timeout_ms)
         self.qcount = 0
@@ -158,7 +159,10 @@ class Ctx:
         self.trace.append((c, n))
         return c
 
-    def assume(self, b):
+    def assume(self, b, definitional=False):
+        """definitional=True marks the defining axiom of a FRESH symbol introduced by the engine (an
+        enumeration of a set, a sorted copy): conservative, so it can be left out when only the
+        satisfiability of the rest of the path condition is in question"""
         if self.guards:
             b = z3.Implies(z3.And(self.guards), b)
         raw = b
@@ -169,6 +173,8 @@ class Ctx:
             raise Infeasible()
         self.pc.append(b)
         self.pc_raw.append(b)
+        if definitional:
+            self.definitional.add(b.get_id())
         self.solver.add(b)
 
     def _rebuild_solver(self):
@@ -454,6 +460,20 @@ class Ctx:
                     from .solve import LAST_MODEL
 
                     ob.model = LAST_MODEL[0]
+            if ob.status == "unknown" and z3.is_false(g) and self.definitional:
+                # a violation that does not depend on any value (the goal is literally False): only the
+                # feasibility of the path matters, and the defining axioms of engine-introduced fresh
+                # symbols (conservative extensions) can be left out of that question
+                s3 = z3.Solver()
+                s3.set("timeout", self.ex.oblig_timeout_ms)
+                s3.add([f for f in self.pc_raw if f.get_id() not in self.definitional])
+                try:
+                    if s3.check() == z3.sat:
+                        ob.status, ob.solver = "refuted", "z3(definitions-omitted)"
+                        ob.z3model = s3.model()
+                        ob.model = model_to_json(ob.z3model)
+                except z3.Z3Exception:
+                    pass
             if ob.status == "unknown":
                 # counterexample search on a bounded instance: index-range quantifiers are
                 # expanded over ranges of size <= 2 (equivalent under the added range bound),
